@@ -5,9 +5,9 @@
 patch=$1; shift
 cd /verif
 if ! git -C /repo diff --quiet; then echo "/repo has uncommitted changes"; exit 3; fi
-git -C /repo apply "$patch" 2>/dev/null || git -C /repo apply --3way "$patch" 2>/dev/null || (cd /repo && patch -p1 --no-backup-if-mismatch -F3 < "$patch" >/dev/null) || { echo "patch does not apply"; exit 3; }
+trap 'git -C /repo reset -q 2>/dev/null; git -C /repo checkout -- . ; git -C /repo clean -fdq -- . 2>/dev/null' EXIT
+git -C /repo apply "$patch" 2>/dev/null || git -C /repo apply --3way "$patch" 2>/dev/null || (git -C /repo reset -q; git -C /repo checkout -- .; cd /repo && patch -p1 --no-backup-if-mismatch -F3 < "$patch" >/dev/null) || { echo "patch does not apply"; exit 3; }
 git -C /repo reset -q 2>/dev/null
-trap 'git -C /repo checkout -- . ; git -C /repo clean -fdq -- . 2>/dev/null' EXIT
 (cd /repo && GOFLAGS=-mod=mod GOPROXY=off GOSUMDB=off go build ./... && GOFLAGS=-mod=mod GOPROXY=off GOSUMDB=off go test -vet=off -count=1 ./... > /tmp/evalseed-base.log 2>&1; echo "baseline suite exit=$?")
 for p in "$@"; do
   echo "== $p"
